@@ -25,9 +25,9 @@ m = {
     "setup_cmd": "./vcheck setup",
     "hooks": {
         "guard": "verif",
-        "enable": "not needed: no guarded code exists in /repo; the small-buffer variant is a wrapper main under /verif/harness/cmd that only uses exported API",
+        "enable": "the harness test binary is built with `go test -c -tags verif ./checks` (vcheck does this); the tag compiles /repo/core/verif_hooks.go, which exposes the topology refresh step (updateClusterNodes) to the in-process half of C14. The proxy binaries under test (stock main and the small-buffer wrapper main under /verif/harness/cmd) are built WITHOUT the tag.",
         "baseline_off_cmd": BASELINE,
-        "source_commits": [],
+        "source_commits": ["dbde927"],
         "add_only": True,
     },
     "engines": [
